@@ -110,7 +110,8 @@ def enable_runs(prop, tier, specs):
     for key, n, shape, extra in specs:
         cfg = dict(N=n, key=key, shape=shape)
         cfg.update(extra)
-        tagx = ":already_active_stale_values" if extra.get("stale_keys") else ""
+        tagx = (":disabled_earlier_stale_values" if extra.get("was_disabled") else ":already_active_stale_values") \
+            if extra.get("stale_keys") else ""
         runs.append(Run(name=f"enable:{key}:N={n}:{'x'.join(map(str, shape))}{tagx}", harness=segstep.enable_harness,
                         cfg=cfg, replay=seg_replay.replay, need_tags=("enabled",),
                         bound=f"enable_features(['{key}']) at an arbitrary Inv-state: {n} node slots, array "
